@@ -206,19 +206,48 @@ def r71(ctx, rep, fns):
                 rep.violated('R7.1', fn, '%s = %s' % (name, ' | '.join(v)),
                              '%s computes %s as `%s` where its %d siblings compute `%s`: the joins disagree on which '
                              'fields are keys / carried over' % (fn.name, name, ' | '.join(v), n, ' | '.join(best)), fn.node)
-    # output header
-    blocks = {fn: tuple(canon(s) for s in _outhdr_block(fn)) for fn in fns}
-    if any(not b for b in blocks.values()):
-        raise AnalysisError('anchor vanished: outhdr block of a join iterator')
-    best, n = _majority(list(blocks.values()))
-    for fn, b in blocks.items():
-        if b == best:
-            rep.held('R7.1', fn, 'output header', 'identical to %d siblings' % n, fn.node)
+    # output header: for each combination of given / omitted prefixes the header every join iterator yields first, as a
+    # symbolic sequence (which source fields, mapped how) -- independent of whether it is built by extend(), by
+    # concatenation or in a helper
+    from ..ladder import paths, seq_eval, seq_exec
+    import itertools as _it
+    results = {}
+    for fn in fns:
+        per = []
+        for lp_none, rp_none in _it.product((True, False), repeat=2):
+            val = {'lprefix is None': lp_none, 'rprefix is None': rp_none}
+            got = None
+            for pth in paths(fn.node.body, val):
+                # effects up to the first yield on this path
+                pre = []
+                hdr = None
+                for st in pth.effects:
+                    ys = [x for x in ast.walk(st) if isinstance(x, ast.Yield)] if not isinstance(st, (ast.For, ast.While, ast.With)) else []
+                    if ys and ys[0].value is not None:
+                        hdr = ys[0].value
+                        break
+                    pre.append(st)
+                if hdr is None:
+                    continue
+                env = seq_exec(pre, {}, val)
+                segs = seq_eval(hdr, env, val)
+                # names of the side variables are role names by convention (lhdr / rhdr); strip leading underscores
+                got = tuple((re.sub(r'\b_+', '', a), (re.sub(r'\b_+', '', b) if b else b)) for a, b in segs)
+                break
+            per.append(got)
+        results[fn] = tuple(per)
+    if any(any(x is None for x in per) for per in results.values()):
+        raise AnalysisError('anchor vanished: header yield of a join iterator')
+    best, n = _majority(list(results.values()))
+    for fn, per in results.items():
+        if per == best:
+            rep.held('R7.1', fn, 'output header', 'identical to %d siblings for all four prefix combinations' % n, fn.node)
         else:
-            diffs = [x for x in b if x not in best] or list(b)
-            rep.violated('R7.1', fn, 'output header: %s' % diffs[0][:80],
-                         'the output header is built differently from the %d sibling joins (prefix handling / field '
-                         'order): %s' % (n, ' ; '.join(diffs)[:300]), fn.node)
+            i = [k for k in range(4) if per[k] != best[k]][0]
+            combo = ['both prefixes omitted', 'only rprefix given', 'only lprefix given', 'both prefixes given'][i]
+            rep.violated('R7.1', fn, 'output header: %s' % (per[i],),
+                         'with %s the output header is built as %s, by the %d sibling joins as %s (prefix handling / field '
+                         'order)' % (combo, per[i], n, best[i]), fn.node)
     # row assembly recipes
     by_kind = {}
     for fn in fns:
